@@ -1079,11 +1079,11 @@ class SamplingMethod(DirectMethod):
         for i, p in enumerate(stage.parameters['control']):
             if is_equal(parameter, p):
                 found = True
-                opti.set_value(hcat(self.P_control[i]), value)
+                opti.set_value(hcat(self.P_control[i]), ca.densify(DM(value))) # structural zeros of a sparse value must stay in place
         for i, p in enumerate(stage.parameters['control+']):
             if is_equal(parameter, p):
                 found = True
-                opti.set_value(hcat(self.P_control_plus[i]), value)
+                opti.set_value(hcat(self.P_control_plus[i]), ca.densify(DM(value)))
         for p in stage.parameters['bspline']:
             if is_equal(parameter, p):
                 found = True
@@ -1112,8 +1112,8 @@ class SamplingMethod(DirectMethod):
         for i, p in enumerate(stage.parameters['']):
             opti.set_value(self.P[i], stage._param_value(p))
         for i, p in enumerate(stage.parameters['control']):
-            opti.set_value(hcat(self.P_control[i]), stage._param_value(p))
+            opti.set_value(hcat(self.P_control[i]), ca.densify(DM(stage._param_value(p))))
         for i, p in enumerate(stage.parameters['control+']):
-            opti.set_value(hcat(self.P_control_plus[i]), stage._param_value(p))
+            opti.set_value(hcat(self.P_control_plus[i]), ca.densify(DM(stage._param_value(p))))
         for p in stage.parameters['bspline']:
             opti.set_value(self.signals[p].coeff, stage._param_value(p))
